@@ -23,7 +23,7 @@ func c17Alphabet() []kvlab.Op {
 		{Kind: "put", Bucket: "x", Key: "a", Val: "1"},
 		{Kind: "put", Bucket: "x", Key: "a", Val: "2"},
 		{Kind: "put", Bucket: "x", Key: "b", Val: "1"},
-		{Kind: "put", Bucket: "x", Key: "b", Val: "2"},
+		{Kind: "put", Bucket: "x", Key: "b", Val: ""}, // a present key with an empty value (the chain store writes those)
 		{Kind: "del", Bucket: "x", Key: "a"},
 		{Kind: "del", Bucket: "x", Key: "b"},
 		{Kind: "flush"},
@@ -47,7 +47,7 @@ func c17Report(r *mon.Run, be string, ops []kvlab.Op, mm *kvlab.Mismatch) {
 }
 
 func runC17(r *mon.Run, replay string) {
-	r.Rule("all operation sequences over {create x, put a/b=1/2, del a/b, flush, cancel} up to the tier's length on every backend, then PRNG sequences over 3 buckets x 16 keys; after every operation Get of every key and a full Iter of every bucket are compared with the overlay-map model, and the durable image at the end; a sequence is non-trivial when it contains a put into an existing bucket, distinct by (backend, op string)")
+	r.Rule("all operation sequences over {create x, put a=1/2, put b=1/empty, del a/b, flush, cancel} up to the tier's length on every backend, then PRNG sequences over 3 buckets x 16 keys; after every operation Get of every key and a full Iter of every bucket are compared with the overlay-map model, and the durable image at the end; a sequence is non-trivial when it contains a put into an existing bucket, distinct by (backend, op string)")
 	r.Assume("bbolt's own transaction semantics (trusted)")
 	alpha := c17Alphabet()
 	buckets := []string{"x"}
@@ -175,7 +175,11 @@ func runC17(r *mon.Run, replay string) {
 					case x < 4 || i < 2:
 						ops = append(ops, kvlab.Op{Kind: "create", Bucket: b})
 					case x < 55:
-						ops = append(ops, kvlab.Op{Kind: "put", Bucket: b, Key: k, Val: fmt.Sprintf("v%d", rng.IntN(1000))})
+						v := fmt.Sprintf("v%d", rng.IntN(1000))
+						if rng.IntN(8) == 0 {
+							v = "" // present, empty
+						}
+						ops = append(ops, kvlab.Op{Kind: "put", Bucket: b, Key: k, Val: v})
 					case x < 85:
 						ops = append(ops, kvlab.Op{Kind: "del", Bucket: b, Key: k})
 					case x < 94:
